@@ -10,6 +10,10 @@
   * `perceval/simulators/simulator_factory.py` `SimulatorFactory.build` (layer choice) → `layers`
   * `perceval/utils/density_matrix.py` `_construct_loss_operators` / `apply_loss` (diagonal) →
       `krausW2`, `annihilate`, `dmLossDiag`
+  * `perceval/simulators/simulator_interface.py` `ASimulatorDecorator.set_circuit` together with
+    `perceval/components/processor.py` `Processor.probs` / `_circuit_change_observer` (a long-lived
+    processor or simulator queried several times while parameters change, components are added, the
+    list is edited in place)                                → `Sess`, `SOp`, `sessStep`, `specStep`
   * the *specification* the property names: every loss channel is a two-mode block
     (`BS.H` of transmission `1 - loss`) coupling its mode to a fresh mode `M + (number of channels
     before it)` → `spec`, `twoMode`.
@@ -24,6 +28,7 @@ import PercevalModel.Found.Perm
 import PercevalModel.Found.Fock
 import PercevalModel.Found.Dist
 import PercevalModel.Found.Memo
+import PercevalModel.Found.SM
 
 open Matrix
 
@@ -163,6 +168,62 @@ def lossProbs {N : ℕ} (U : Matrix (Fin N) (Fin N) GQ) (M : ℕ) (s : List ℕ)
 /-- readable form: one entry per distinct reduced state, probabilities accumulated -/
 def marginal (d : Dist.D) : Dist.D :=
   (d.map (·.1)).eraseDups.map fun t => (t, Dist.get d t)
+
+
+/-! ### a long-lived processor / simulator queried several times
+
+`Processor.probs()` keeps its simulator between calls (`self._simulator`) and on every later call
+hands it the component list again: `self._simulator.set_circuit(self.components, self.circuit_size)`;
+`ASimulatorDecorator.set_circuit` is `self._simulator.set_circuit(self._prepare_circuit(circuit, m))`
+— the loss expansion (`float(c.param("loss"))`, the leaves' matrices) is redone from the *current*
+values each time.  `Processor.add` notifies `_circuit_change_observer`, which drops the simulator.
+Changing the value of a `Parameter` or editing a list in place notifies nobody.
+
+`C` is what the caller holds (components with their current parameter values, the mode count), `P`
+what the inner simulator was given (the prepared, enlarged circuit). -/
+
+structure Sess (C P : Type) where
+  /-- the caller's components, current values -/
+  comps : C
+  /-- `Processor._simulator`: `none`, or the circuit the inner simulator currently holds -/
+  sim : Option P
+
+inductive SOp (C : Type) where
+  /-- `Parameter.set_value`, `lst[i] = …`, `lst.append(…)`: nobody is notified -/
+  | edit (f : C → C)
+  /-- `Processor.add`: `_circuit_change_observer` sets `_simulator = None` -/
+  | add (f : C → C)
+  /-- `Processor.probs()` / `sim.set_circuit(lst); sim.probs(…)` -/
+  | query
+
+/-- the code as it is: every query prepares the circuit again (`SimulatorFactory.build` when there
+is no simulator, `set_circuit` otherwise — both end in `_prepare_circuit` of the current list);
+the answer is computed from what the inner simulator holds after that -/
+def sessStep {C P : Type} (prepare : C → P) (s : Sess C P) : SOp C → Sess C P × Option P
+  | .edit f => ({ s with comps := f s.comps }, none)
+  | .add f => ({ comps := f s.comps, sim := none }, none)
+  | .query =>
+    let p := match s.sim with
+      | none => prepare s.comps          -- SimulatorFactory.build(self) → set_circuit
+      | some _ => prepare s.comps        -- self._simulator.set_circuit(self.components, m)
+    ({ s with sim := some p }, some p)
+
+/-- a variant that keeps what it prepared "when the circuit is the same object" (the cache key sees
+neither parameter values nor in-place edits); NOT the code — the negative witness in `Props` -/
+def sessStepCached {C P : Type} (prepare : C → P) (s : Sess C P) : SOp C → Sess C P × Option P
+  | .edit f => ({ s with comps := f s.comps }, none)
+  | .add f => ({ comps := f s.comps, sim := none }, none)
+  | .query =>
+    let p := match s.sim with
+      | none => prepare s.comps
+      | some p => p
+    ({ s with sim := some p }, some p)
+
+/-- the property's reading: no memory at all, every query is answered from the current values -/
+def specStep {C P : Type} (prepare : C → P) (c : C) : SOp C → C × Option P
+  | .edit f => (f c, none)
+  | .add f => (f c, none)
+  | .query => (c, some (prepare c))
 
 /-! ### `SimulatorFactory.build`: which layers wrap the backend (outermost last) -/
 
